@@ -77,13 +77,45 @@ def e_merger(ctx, h):
     if ctx.replay_case and ctx.replay_case.get("label") == "merger":
         cases = [ctx.replay_case["case"]]
 
+    # block refinement: the same behaviours with every item standing for K items of equal key and consecutive indices, so
+    # that far jumps, long merged prefixes and exhausted runs occur at realistic sizes (thousands of results)
+    def blown_up(c, K):
+        # per item: a block of K items or a single one (so that short runs are exhausted early while others are long)
+        idxs = sorted({i["index"] for l in c["lists"] for i in l})
+        mode = ctx.rng.choice(["all", "mixed", "mixed", "one-list-small"])
+        small_list = ctx.rng.randrange(len(c["lists"])) if c["lists"] else 0
+        size, base, acc = {}, {}, 0
+        for ix in idxs:
+            in_small = any(i["index"] == ix for i in (c["lists"][small_list] if c["lists"] else []))
+            size[ix] = K if mode == "all" else (1 if in_small else K) if mode == "one-list-small" else ctx.rng.choice([1, K])
+            base[ix] = acc
+            acc += size[ix]
+        blk = (lambda r: list(range(base[r] + size[r] - 1, base[r] - 1, -1))) if c["tac"] else (lambda r: list(range(base[r], base[r] + size[r])))
+        real, start = [], {}
+        for pos, r in enumerate(c["ranked"]):
+            start[pos] = len(real)
+            real += blk(r)
+        probes = []
+        for p in c["probes"]:
+            r = c["ranked"][p["i"]]
+            offs = sorted({0, size[r] - 1}) if ctx.rng.random() < 0.5 else [ctx.rng.randrange(size[r])]
+            for off in offs:
+                i = start[p["i"]] + off
+                probes.append({"i": i, "exp": real[i], "merged": 0})
+        lists = [[dict(i, k=size[i["index"]], base=base[i["index"]]) for i in l] for l in c["lists"]]
+        return dict(c, scale=K, lists=lists, probes=probes, ranked=real)
+    small = [c for c in cases if 2 <= len(c["ranked"]) <= 6 and c["probes"]]
+    ctx.rng.shuffle(small)
+    cases = cases + [blown_up(c, ctx.rng.choice([1000, 1100, 1500])) for c in small[:ctx.pick(60, 900)]]
+
     def expected(c):
         return {"probes": c["probes"], "ranked": c["ranked"], "cursors_in_range": True}
 
     def describe(c, exp, r):
-        return "Merger(sorted=%s tac=%s) runs %s probes %s: spec returns %s then whole list %s; real %s" % (
-            c["sorted"], c["tac"], json.dumps([[(i["key"], i["index"]) for i in l] for l in c["lists"]]),
-            [p["i"] for p in c["probes"]], [p["exp"] for p in c["probes"]], c["ranked"], json.dumps(r)[:600])
+        return "Merger(sorted=%s tac=%s%s) runs %s probes %s: spec returns %s then whole list %s; real %s" % (
+            c["sorted"], c["tac"], (", every item standing for %d items" % c["scale"]) if c.get("scale") else "",
+            json.dumps([[(i["key"], i["index"]) for i in l] for l in c["lists"]]),
+            [p["i"] for p in c["probes"]], [p["exp"] for p in c["probes"]], c["ranked"][:12], json.dumps(r)[:600])
     replay_cases(ctx, h, "TestVerifMerger", cases, expected, "merger", describe=describe)
     nontriv = {json.dumps([c["sorted"], c["tac"], c["lists"], [p["i"] for p in c["probes"]]]) for c in cases
                if sum(1 for l in c["lists"] if l) >= 2 and len(c["ranked"]) >= 3}
